@@ -132,6 +132,19 @@ def check_hostile_outcome(mon: Monitor, res, ctx: Ctx) -> None:
 
 
 # ====================================================================== driver A
+class DepOrderRunner(SequentialRunner):
+    """user-written runner variant: identical to the stock runner except that index markets are set up
+    after the other markets, so that an index market may be *listed* before its components (the stock
+    setup order makes such a config fail; the stock time-advance code is what C06/C17 are about)."""
+
+    def _generate_markets(self, market_type_names):
+        super()._generate_markets(market_type_names)
+        from pams.index_market import IndexMarket
+        first = [x for x in self._pending_setups if not isinstance(getattr(x[0], "__self__", None), IndexMarket)]
+        last = [x for x in self._pending_setups if isinstance(getattr(x[0], "__self__", None), IndexMarket)]
+        self._pending_setups = first + last
+
+
 def run_A(scn: Dict[str, Any], on, plugins=()) -> Dict[str, Any]:
     res = new_result()
     mon = Monitor(on, "A")
@@ -149,8 +162,9 @@ def run_A(scn: Dict[str, Any], on, plugins=()) -> Dict[str, Any]:
     ctx.logger = logger
     res["phase"] = "construct"
     try:
-        runner = SequentialRunner(settings=cfg, prng=random.Random(scn["runner_seed"]), logger=logger,
-                                  simulator_class=classes["TapSimulator"])
+        rcls = DepOrderRunner if scn.get("runner_variant") == "deporder" else SequentialRunner
+        runner = rcls(settings=cfg, prng=random.Random(scn["runner_seed"]), logger=logger,
+                      simulator_class=classes["TapSimulator"])
         for c in classes.values():
             runner.class_register(c)
         res["phase"] = "setup"
@@ -165,6 +179,7 @@ def run_A(scn: Dict[str, Any], on, plugins=()) -> Dict[str, Any]:
     res["phase"] = "run"
     mon.ext["runner"] = runner
     mon.ext["cfg"] = cfg
+    mon.ext["probe_specs"] = scn.get("probes") or {}
     mon.attach(runner.simulator, cfg["simulation"]["sessions"])
     try:
         runner._run()
